@@ -266,7 +266,13 @@ pub fn dump_blocks(ctx: &Ctx, st: &mut Stats) -> Vec<(usize, u128)> {
     let total = total_inputs(ctx.prop, ctx.tier, ctx.scale);
     let nblocks = total.div_ceil(BLOCK);
     let mut out = Vec::new();
-    for b in (ctx.shard..nblocks).step_by(ctx.nshards) {
+    // SLV_REVERSE_BLOCKS: same blocks, opposite order — what this process has lexed before a given
+    // input is then (almost) the complement of what the forward process had lexed before it
+    let mut order: Vec<usize> = (ctx.shard..nblocks).step_by(ctx.nshards).collect();
+    if std::env::var_os("SLV_REVERSE_BLOCKS").is_some() {
+        order.reverse();
+    }
+    for b in order {
         let mut acc: Vec<u8> = Vec::with_capacity(BLOCK * 32);
         for k in b * BLOCK..((b + 1) * BLOCK).min(total) {
             let s = diff_input(ctx.prop, ctx.seed, k, ctx.tier, ctx.corpus);
@@ -381,7 +387,7 @@ pub fn c19_history(ctx: &Ctx, st: &mut Stats) {
             if s.len() > 200_000 {
                 continue;
             }
-            let ex = exec(&s);
+            let ex = run::exec_painted(&s);
             st.count("thread_stack_probes", 1);
             if ex.stack_used > crate::props::STACK_LIMIT {
                 st.violation(
